@@ -10,9 +10,11 @@
    Hypotheses of the first six theorems (about the abstract evaluator `eval`):
      genuine        fed with the true tables of its children a rule returns the true table of its parent
      local          a rule reads child i only at sizes <= n - shift_i and its own terms only below n
-     keys/spec      every forest key considered belongs to a rule of `spec` with exactly those children and
-                    shifts (`spec` is a FUNCTION: one rule per class is built into its type; there is no
-                    separate closedness hypothesis — closure along derivations follows from `pumps`)
+     keys/spec      every forest key considered belongs to a rule of `spec` whose children-with-shifts are
+                    AMONG the key's (incl; the first version asked for equality, which the rules handed out
+                    by ForestRuleExtractor.rules() do not satisfy: Spec/EvalDrop.v) (`spec` is a FUNCTION: one
+                    rule per class is built into its type; there is no separate closedness hypothesis —
+                    closure along derivations follows from `pumps`)
      productive     the class pumps w.r.t. those keys (C03's notion; for RuleDBForest discharged by the
                     pipeline theorems below, otherwise a hypothesis).
    For rules of the LIBRARY'S constructors `local` and `genuine` are THEOREMS (second half of this file:
@@ -23,14 +25,14 @@
    counts for every class, size and parameter value; and the specification has
    no other solution. *)
 From Coq Require Import ZArith List.
-From CSS Require Import Forest.Spec Spec.Eval.
+From CSS Require Import Forest.Spec Spec.Eval Spec.EvalDrop.
 Import ListNotations.
 Open Scope Z_scope.
 
 Theorem C01_spec_correct :
   forall (terms : Type) (dflt : terms) (spec : nat -> option (srule terms))
          (T : nat -> Z -> terms) (keys : list fkey),
-  (forall k, In k keys -> exists r, spec (parent k) = Some r /\ kids k = r_kids terms r) ->
+  (forall k, In k keys -> exists r, spec (parent k) = Some r /\ incl (r_kids terms r) (kids k)) ->
   (forall c m, m < 0 -> T c m = dflt) ->
   (forall c r, spec c = Some r -> forall p o n, n < 0 -> r_op terms r p o n = dflt) ->
   (forall c r, spec c = Some r -> local terms r) ->
@@ -41,13 +43,13 @@ Theorem C01_spec_correct :
 Proof.
   intros terms dflt spec T keys Hk Tn On Hl Hg c P n Hn.
   apply (eval_correct terms dflt spec T Tn On Hl Hg).
-  apply (pumps_ev terms spec keys Hk c P n Hn).
+  apply (pumps_ev_sub terms spec keys Hk c P n Hn).
 Qed.
 
 Theorem C01_unique_solution :
   forall (terms : Type) (dflt : terms) (spec : nat -> option (srule terms))
          (T U : nat -> Z -> terms) (keys : list fkey),
-  (forall k, In k keys -> exists r, spec (parent k) = Some r /\ kids k = r_kids terms r) ->
+  (forall k, In k keys -> exists r, spec (parent k) = Some r /\ incl (r_kids terms r) (kids k)) ->
   (forall c m, m < 0 -> T c m = dflt) ->
   (forall c r, spec c = Some r -> local terms r) ->
   (forall c r, spec c = Some r -> genuine terms T c r) ->
@@ -58,7 +60,7 @@ Theorem C01_unique_solution :
 Proof.
   intros terms dflt spec T U keys Hk Tn Hl Hg Un Us c P n Hn.
   apply (unique_solution terms dflt spec T Tn Hl Hg U Un Us).
-  apply (pumps_ev terms spec keys Hk c P n Hn).
+  apply (pumps_ev_sub terms spec keys Hk c P n Hn).
 Qed.
 
 (* two specifications for the same classes that both satisfy the hypotheses
@@ -67,8 +69,8 @@ Qed.
 Theorem C01_choice_independent :
   forall (terms : Type) (dflt : terms) (spec1 spec2 : nat -> option (srule terms))
          (T : nat -> Z -> terms) (keys1 keys2 : list fkey),
-  (forall k, In k keys1 -> exists r, spec1 (parent k) = Some r /\ kids k = r_kids terms r) ->
-  (forall k, In k keys2 -> exists r, spec2 (parent k) = Some r /\ kids k = r_kids terms r) ->
+  (forall k, In k keys1 -> exists r, spec1 (parent k) = Some r /\ incl (r_kids terms r) (kids k)) ->
+  (forall k, In k keys2 -> exists r, spec2 (parent k) = Some r /\ incl (r_kids terms r) (kids k)) ->
   (forall c m, m < 0 -> T c m = dflt) ->
   (forall c r, spec1 c = Some r -> forall p o n, n < 0 -> r_op terms r p o n = dflt) ->
   (forall c r, spec2 c = Some r -> forall p o n, n < 0 -> r_op terms r p o n = dflt) ->
@@ -96,7 +98,10 @@ Print Assumptions C01_choice_independent.
    hypothesis is left.  If the table-method model, run on the inserted forest
    keys `ks` (any order, any `set.pop()` resolution `pick`), reports the start
    class as pumping, and the extractor model returns `res`, and every
-   extracted key was turned back into a rule with that key, then — for genuine
+   extracted key was turned back into a rule whose children are the key's
+   children minus EMPTY classes (`drops (empty_class T dflt)`: what rules()
+   guarantees - it hands out rule.to_equivalence_rule() for a union whose
+   other children are empty; Spec/EvalDrop.v, replayed on 2000 searches), then — for genuine
    (C09) and local (C10) rules — the recursive evaluation returns the true
    counts of the start class at every size, and the specification has no
    other solution there.  C03 (`sound_complete`) and C11
@@ -112,7 +117,8 @@ Theorem C01_forest_pipeline_correct :
   (forall k, In k ks -> (bk_bucket k < 4)%nat) ->
   extract fuelx root ks = Ok res ->
   (forall k, In k res ->
-     exists r, spec (parent (bk_key k)) = Some r /\ kids (bk_key k) = r_kids terms r) ->
+     exists r, spec (parent (bk_key k)) = Some r /\
+               drops (empty_class T dflt) (r_kids terms r) (kids (bk_key k))) ->
   (forall c m, m < 0 -> T c m = dflt) ->
   (forall c r, spec c = Some r -> forall p o n, n < 0 -> r_op terms r p o n = dflt) ->
   (forall c r, spec c = Some r -> local terms r) ->
@@ -132,7 +138,8 @@ Theorem C01_forest_pipeline_unique :
   (forall k, In k ks -> (bk_bucket k < 4)%nat) ->
   extract fuelx root ks = Ok res ->
   (forall k, In k res ->
-     exists r, spec (parent (bk_key k)) = Some r /\ kids (bk_key k) = r_kids terms r) ->
+     exists r, spec (parent (bk_key k)) = Some r /\
+               drops (empty_class T dflt) (r_kids terms r) (kids (bk_key k))) ->
   (forall c m, m < 0 -> T c m = dflt) ->
   (forall c r, spec c = Some r -> local terms r) ->
   (forall c r, spec c = Some r -> genuine terms T c r) ->
@@ -162,7 +169,7 @@ Example C01_forest_pipeline_nonvacuous :
     (forall k, In k ex_ks -> (bk_bucket k < 4)%nat) /\
     extract 50 0 ex_ks = Ok res /\ res <> [] /\
     (forall k, In k res -> exists r, ex_spec (parent (bk_key k)) = Some r /\
-                                     kids (bk_key k) = r_kids Z r) /\
+                                     drops (empty_class ex_T 0) (r_kids Z r) (kids (bk_key k))) /\
     (forall c m, m < 0 -> ex_T c m = 0) /\
     (forall c r, ex_spec c = Some r -> forall p o n, n < 0 -> r_op Z r p o n = 0) /\
     (forall c r, ex_spec c = Some r -> local Z r) /\
@@ -173,7 +180,7 @@ Proof.
   split; [intros k [<-|[]]; simpl; auto with arith|].
   split; [vm_compute; reflexivity|].
   split; [discriminate|].
-  split; [intros k [<-|[]]; exists ex_rule; split; reflexivity|].
+  split; [intros k [<-|[]]; exists ex_rule; split; [reflexivity|apply drops_refl]|].
   split; [intros [|c] m Hm; simpl; auto; apply Z.ltb_lt in Hm; rewrite Hm; reflexivity|].
   split; [intros [|c] r E p o n Hn; [|discriminate]; injection E as <-; simpl; apply Z.ltb_lt in Hn; rewrite Hn; reflexivity|].
   split.
@@ -214,8 +221,8 @@ Definition bw_keys : list fkey := [mkkey 0 [(1%nat, 0)]; mkkey 1 [(0%nat, 1); (0
 Definition bw_ks : list bkey := [mkb (mkkey 0 [(1%nat, 0)]) 1; mkb (mkkey 1 [(0%nat, 1); (0%nat, 1)]) 1].
 
 Lemma bw_keys_spec : forall k, In k bw_keys ->
-  exists r, bw_spec (parent k) = Some r /\ kids k = r_kids Z r.
-Proof. intros k [<-|[<-|[]]]; eexists; split; reflexivity. Qed.
+  exists r, bw_spec (parent k) = Some r /\ incl (r_kids Z r) (kids k).
+Proof. intros k [<-|[<-|[]]]; eexists; (split; [reflexivity|apply incl_refl]). Qed.
 Lemma bw_T_neg : forall c m, m < 0 -> bw_T c m = 0.
 Proof.
   intros [|[|c]] m Hm; simpl; auto.
@@ -303,8 +310,8 @@ Definition bw_spec' (c : nat) : option (srule Z) :=
   match c with 0%nat => Some bw_r0' | 1%nat => Some bw_r1 | _ => None end.
 Definition bw_keys' : list fkey := [mkkey 0 [(0%nat, 1); (0%nat, 1)]; mkkey 1 [(0%nat, 1); (0%nat, 1)]].
 Lemma bw_keys_spec' : forall k, In k bw_keys' ->
-  exists r, bw_spec' (parent k) = Some r /\ kids k = r_kids Z r.
-Proof. intros k [<-|[<-|[]]]; eexists; split; reflexivity. Qed.
+  exists r, bw_spec' (parent k) = Some r /\ incl (r_kids Z r) (kids k).
+Proof. intros k [<-|[<-|[]]]; eexists; (split; [reflexivity|apply incl_refl]). Qed.
 Lemma bw_op_neg' : forall c r, bw_spec' c = Some r -> forall p o n, n < 0 -> r_op Z r p o n = 0.
 Proof.
   intros [|[|c]] r E p o n Hn; try discriminate; injection E as <-; simpl;
@@ -346,8 +353,9 @@ Qed.
 (* covers C01_forest_pipeline_correct and C01_forest_pipeline_unique (table-method run, extractor
    and the `_find_rule` hypothesis all on the two-rule universe) *)
 Lemma bw_found : forall k, In k bw_ks ->
-  exists r, bw_spec (parent (bk_key k)) = Some r /\ kids (bk_key k) = r_kids Z r.
-Proof. intros k [<-|[<-|[]]]; eexists; split; reflexivity. Qed.
+  exists r, bw_spec (parent (bk_key k)) = Some r /\
+            drops (empty_class bw_T 0) (r_kids Z r) (kids (bk_key k)).
+Proof. intros k [<-|[<-|[]]]; eexists; (split; [reflexivity|apply drops_refl]). Qed.
 Lemma bw_buckets : forall k, In k bw_ks -> (bk_bucket k < 4)%nat.
 Proof. intros k [<-|[<-|[]]]; simpl; auto with arith. Qed.
 Example bw_run_extract :
@@ -391,7 +399,8 @@ Theorem C01_forest_pipeline_total :
        parent (bk_key (nth i res (mkb dummy 0))) = parent (bk_key (nth j res (mkb dummy 0))) -> i = j) /\
     forall spec : nat -> option (srule terms),
       (forall k, In k res ->
-         exists r, spec (parent (bk_key k)) = Some r /\ kids (bk_key k) = r_kids terms r) ->
+         exists r, spec (parent (bk_key k)) = Some r /\
+               drops (empty_class T dflt) (r_kids terms r) (kids (bk_key k))) ->
       (forall c r, spec c = Some r -> forall p o n, n < 0 -> r_op terms r p o n = dflt) ->
       (forall c r, spec c = Some r -> local terms r) ->
       (forall c r, spec c = Some r -> genuine terms T c r) ->
@@ -426,6 +435,149 @@ Print Assumptions C01_forest_pipeline_correct.
 Print Assumptions C01_forest_pipeline_unique.
 Print Assumptions C01_forest_pipeline_total.
 
+(* ------------------------------------------------------------------------
+   The dropped children are irrelevant (Spec/EvalDrop.v).  `drop_form r0 r sel`: r is r0 with some
+   children dropped and r's operator IS r0's operator fed with the table `zero` at the dropped
+   positions (the contract on the operator of an equivalence form; for the library's union
+   constructor it is discharged below, C01_equivalence_form_contract).  If the dropped children are
+   empty classes, genuineness and locality pass from the ORIGINAL rule to the rule handed out. *)
+Theorem C01_drop_form_genuine :
+  forall (terms : Type) (zero : terms) (T : nat -> Z -> terms) c r0 r sel,
+  drop_form terms zero r0 r sel -> dropped_empty terms zero T r0 sel ->
+  local terms r0 -> genuine terms T c r0 -> genuine terms T c r.
+Proof. exact drop_form_genuine. Qed.
+
+Theorem C01_drop_form_local :
+  forall (terms : Type) (zero : terms) r0 r sel,
+  drop_form terms zero r0 r sel -> local terms r0 -> local terms r.
+Proof. exact drop_form_local. Qed.
+
+(* the pipeline with genuine / local assumed of the ORIGINAL rules (one per extracted key, with exactly
+   the key's children) only; the specification holds drop forms of them *)
+Theorem C01_forest_pipeline_total_original :
+  forall (terms : Type) (dflt : terms) (T : nat -> Z -> terms)
+         (pick : list nat -> nat) (fuelx root : nat) (ks : list bkey),
+  (forall k, In k ks -> (bk_bucket k < 4)%nat) ->
+  pumping_answer (run_total pick (add_ops ks)) root = true ->
+  (forall c m, m < 0 -> T c m = dflt) ->
+  exists res, extract fuelx root ks = Ok res /\
+    forall (spec : nat -> option (srule terms)) (orig : bkey -> srule terms) (sel : bkey -> nat -> option nat),
+      (forall c r, spec c = Some r -> exists k, In k res /\ parent (bk_key k) = c) ->
+      (forall k, In k res ->
+         r_kids terms (orig k) = kids (bk_key k) /\
+         (forall p o n, n < 0 -> r_op terms (orig k) p o n = dflt) /\
+         local terms (orig k) /\ genuine terms T (parent (bk_key k)) (orig k) /\
+         exists r, spec (parent (bk_key k)) = Some r /\
+                   drops (empty_class T dflt) (r_kids terms r) (kids (bk_key k)) /\
+                   drop_form terms dflt (orig k) r (sel k) /\ dropped_empty terms dflt T (orig k) (sel k)) ->
+      forall n, 0 <= n ->
+      exists f0, forall f, (f0 <= f)%nat -> eval terms dflt spec f root n = T root n.
+Proof.
+  intros terms dflt T pick fuelx root ks.
+  exact (forest_pipeline_total_original terms dflt T pick fuelx root ks).
+Qed.
+
+(* non-vacuity WITH a dropped child: class 0 = class 1 + class 2 where class 2 is empty, class 1 = a*
+   (T = 1 at every size), class 2 has the child-less empty rule.  The extractor returns the three keys
+   [0 -> (1,0),(2,0)], [1 -> (1,1)], [2 -> ()]; the specification holds for class 0 the EQUIVALENCE FORM
+   with the single child (1,0) - kids k = r_kids r is false, drops holds - and evaluates to the true
+   counts.  dk_orig 0 is the original two-child union. *)
+Definition dk_r0 : srule Z := mkrule Z [(1%nat, 0)] (fun p _ n => if n <? 0 then 0 else p 0%nat n).
+Definition dk_r0orig : srule Z :=
+  mkrule Z [(1%nat, 0); (2%nat, 0)] (fun p _ n => if n <? 0 then 0 else p 0%nat n + p 1%nat n).
+Definition dk_r1 : srule Z :=
+  mkrule Z [(1%nat, 1)] (fun p _ n => if n <? 0 then 0 else if n =? 0 then 1 else p 0%nat (n - 1)).
+Definition dk_r2 : srule Z := mkrule Z [] (fun _ _ _ => 0).
+Definition dk_spec (c : nat) : option (srule Z) :=
+  match c with 0%nat => Some dk_r0 | 1%nat => Some dk_r1 | 2%nat => Some dk_r2 | _ => None end.
+Definition dk_T (c : nat) (n : Z) : Z :=
+  match c with 0%nat | 1%nat => if n <? 0 then 0 else 1 | _ => 0 end.
+Definition dk_k0 := mkb (mkkey 0 [(1%nat, 0); (2%nat, 0)]) 2.
+Definition dk_k1 := mkb (mkkey 1 [(1%nat, 1)]) 1.
+Definition dk_k2 := mkb (mkkey 2 []) 3.
+Definition dk_ks : list bkey := [dk_k0; dk_k1; dk_k2].
+Definition dk_res : list bkey := [dk_k1; dk_k0; dk_k2].
+
+Lemma dk_empty2 : empty_class dk_T 0 2%nat.
+Proof. intros m. reflexivity. Qed.
+Lemma dk_found : forall k, In k dk_res ->
+  exists r, dk_spec (parent (bk_key k)) = Some r /\
+            drops (empty_class dk_T 0) (r_kids Z r) (kids (bk_key k)).
+Proof.
+  intros k [<-|[<-|[<-|[]]]]; eexists; (split; [reflexivity|]); simpl.
+  - apply drops_refl.
+  - apply drops_keep. apply drops_drop; [exact dk_empty2|constructor].
+  - constructor.
+Qed.
+(* the literal form of the first version is FALSE here *)
+Example dk_literal_Hfound_false :
+  ~ (forall k, In k dk_res -> exists r, dk_spec (parent (bk_key k)) = Some r /\ kids (bk_key k) = r_kids Z r).
+Proof. intros H. destruct (H dk_k0 (or_intror (or_introl eq_refl))) as (r & Hr & E). injection Hr as <-. discriminate E. Qed.
+Lemma dk_T_neg : forall c m, m < 0 -> dk_T c m = 0.
+Proof. intros [|[|c]] m Hm; simpl; auto; apply Z.ltb_lt in Hm; rewrite Hm; reflexivity. Qed.
+Lemma dk_op_neg : forall c r, dk_spec c = Some r -> forall p o n, n < 0 -> r_op Z r p o n = 0.
+Proof.
+  intros [|[|[|c]]] r E p o n Hn; try discriminate; injection E as <-; simpl; auto;
+    apply Z.ltb_lt in Hn; rewrite Hn; reflexivity.
+Qed.
+Lemma dk_r1_local : local Z dk_r1.
+Proof.
+  intros p p' o o' n Hp Ho. simpl. destruct (n <? 0) eqn:E1; auto. destruct (n =? 0) eqn:E2; auto.
+  apply Hp; simpl; auto. unfold shift; simpl. apply Z.le_refl.
+Qed.
+Lemma dk_r1_genuine : genuine Z dk_T 1 dk_r1.
+Proof.
+  intros n Hn. simpl. unfold kid; simpl.
+  assert (n <? 0 = false) as -> by (apply Z.ltb_ge; auto).
+  destruct (n =? 0) eqn:E2; auto.
+  assert (n - 1 <? 0 = false) as ->; auto. apply Z.ltb_ge. apply Z.eqb_neq in E2. lia.
+Qed.
+Lemma dk_r0orig_local : local Z dk_r0orig.
+Proof.
+  intros p p' o o' n Hp Ho. simpl. destruct (n <? 0); auto.
+  rewrite (Hp 0%nat n), (Hp 1%nat n); auto; simpl; try lia; unfold shift; simpl; lia.
+Qed.
+Lemma dk_r0orig_genuine : genuine Z dk_T 0 dk_r0orig.
+Proof. intros n Hn. simpl. unfold kid; simpl. destruct (n <? 0); reflexivity. Qed.
+Lemma dk_r2_local : local Z dk_r2. Proof. intros p p' o o' n _ _. reflexivity. Qed.
+Lemma dk_r2_genuine : genuine Z dk_T 2 dk_r2. Proof. intros n _. reflexivity. Qed.
+
+Definition dk_orig (k : bkey) : srule Z :=
+  match parent (bk_key k) with 0%nat => dk_r0orig | 1%nat => dk_r1 | _ => dk_r2 end.
+Definition dk_sel (k : bkey) (j : nat) : option nat :=
+  match parent (bk_key k), j with 0%nat, 1%nat => None | _, _ => Some j end.
+
+Lemma dk_buckets : forall k, In k dk_ks -> (bk_bucket k < 4)%nat.
+Proof. intros k [<-|[<-|[<-|[]]]]; simpl; auto with arith. Qed.
+
+(* the weakened pipeline theorem applies where the first version did not *)
+Example C01_forest_pipeline_total_dropped_child :
+  exists f0, forall f, (f0 <= f)%nat -> eval Z 0 dk_spec f 0 5 = 1.
+Proof.
+  destruct (C01_forest_pipeline_total Z 0 dk_T pick0 50 0%nat dk_ks dk_buckets
+              ltac:(vm_compute; reflexivity) dk_T_neg) as (res & He & _ & H).
+  assert (res = dk_res) as -> by (vm_compute in He; injection He as <-; reflexivity).
+  apply (H dk_spec dk_found dk_op_neg); [| |lia].
+  - intros [|[|[|c]]] r E; try discriminate E; injection E as <-.
+    + apply (C01_drop_form_local Z 0 dk_r0orig dk_r0 (dk_sel dk_k0)); [|exact dk_r0orig_local].
+      split; [intros [|[|j]] i Hj Es; simpl in Hj; try lia; [injection Es as <-; simpl; split; [lia|reflexivity]|discriminate Es]
+             |intros p o n; simpl; unfold ext_prov; simpl; destruct (n <? 0); lia].
+    + exact dk_r1_local.
+    + exact dk_r2_local.
+  - intros [|[|[|c]]] r E; try discriminate E; injection E as <-.
+    + apply (C01_drop_form_genuine Z 0 dk_T 0%nat dk_r0orig dk_r0 (dk_sel dk_k0));
+        [|intros [|[|j]] Hj Es; simpl in Hj; try lia; [discriminate Es|exact dk_empty2]|exact dk_r0orig_local|exact dk_r0orig_genuine].
+      split; [intros [|[|j]] i Hj Es; simpl in Hj; try lia; [injection Es as <-; simpl; split; [lia|reflexivity]|discriminate Es]
+             |intros p o n; simpl; unfold ext_prov; simpl; destruct (n <? 0); lia].
+    + exact dk_r1_genuine.
+    + exact dk_r2_genuine.
+Qed.
+
+Print Assumptions C01_drop_form_genuine.
+Print Assumptions C01_drop_form_local.
+Print Assumptions C01_forest_pipeline_total_original.
+Print Assumptions C01_forest_pipeline_total_dropped_child.
+
 
 (* ========================================================================
    C09 / C10 -> C01: the adapter.
@@ -453,7 +605,7 @@ Print Assumptions C01_forest_pipeline_total.
    fire); any other constructor. *)
 From CSS Require Import Base.Sx Count.Terms Count.Constructors Count.ConstructorsRun Count.TermsPolyOrder Count.ReadsModel
   Spec.TermsCanon Spec.Adapter Spec.AdapterLocal Spec.AdapterSound Spec.AdapterGenuine Spec.RoundsProofs
-  Spec.RoundsStuck Spec.AdapterExample Spec.CountRun.
+  Spec.RoundsStuck Spec.AdapterExample Spec.CountRun Spec.PipelineConstructors.
 
 (* two tables that mean the same have the same canonical form (what enc_table prints, what the harness
    compares): the link between C09's `teq` and C01's Leibniz equality *)
@@ -507,10 +659,64 @@ Theorem C01_spec_correct_constructors :
   forall T npar vpos kpos, T_ok T npar -> (forall l m, canon (T l m)) -> forall (ds : list cdesc) (keys : list fkey),
   (forall c d, nth_error ds c = Some d -> deps_shape d) ->
   (forall c d, nth_error ds c = Some d -> forall Hz, rule_contract T npar vpos kpos Hz c d) ->
-  (forall k, In k keys -> exists d, nth_error ds (parent k) = Some d /\ kids k = c_deps d) ->
+  (forall k, In k keys -> exists d, nth_error ds (parent k) = Some d /\ incl (c_deps d) (kids k)) ->
   forall c, pumps keys c -> forall n, 0 <= n ->
   exists f0, forall f, (f0 <= f)%nat -> eval Count.Terms.terms [] (spec_ofN ds) f c n = T c n.
-Proof. exact spec_ofN_correct. Qed.
+Proof. exact spec_ofN_correct_sub. Qed.
+
+(* THE FOREST PIPELINE FOR THE LIBRARY'S CONSTRUCTORS: no abstract genuine / local hypothesis is left.
+   For every list `ks` of inserted forest keys (any order, any set.pop() resolution) on which the total
+   table-method model reports the start class as pumping, the extractor model returns `res` (one key per
+   class), and every descriptor list `ds` - the thing run_c01 evaluates - whose descriptors satisfy
+   deps_shape (decidable) and the per-form contract about the true tables, and which holds for each
+   extracted key a descriptor whose DECLARED dependencies are the key's children minus empty classes
+   (what rules() hands out), evaluates (Spec/Eval.v eval of spec_ofN ds) to the true table of the start
+   class at every size.  = C03_total_sound_complete + C11_total / _productive / _one_rule_per_class +
+   C10 (local) + C09 (genuine) + C01. *)
+Theorem C01_forest_pipeline_constructors :
+  forall T npar vpos kpos, T_ok T npar -> (forall l m, canon (T l m)) ->
+  forall (pick : list nat -> nat) (fuelx root : nat) (ks : list bkey),
+  (forall k, In k ks -> (bk_bucket k < 4)%nat) ->
+  pumping_answer (run_total pick (add_ops ks)) root = true ->
+  exists res, extract fuelx root ks = Extractor.Ok res /\
+    (forall i j, (i < length res)%nat -> (j < length res)%nat ->
+       parent (bk_key (nth i res (mkb dummy 0))) = parent (bk_key (nth j res (mkb dummy 0))) -> i = j) /\
+    forall ds : list cdesc,
+      (forall c d, nth_error ds c = Some d -> deps_shape d) ->
+      (forall c d, nth_error ds c = Some d -> forall Hz, rule_contract T npar vpos kpos Hz c d) ->
+      (forall k, In k res ->
+         exists d, nth_error ds (parent (bk_key k)) = Some d /\
+                   drops (empty_class T []) (c_deps d) (kids (bk_key k))) ->
+      forall n, 0 <= n ->
+      exists f0, forall f, (f0 <= f)%nat -> eval Count.Terms.terms [] (spec_ofN ds) f root n = T root n.
+Proof. exact forest_pipeline_constructors. Qed.
+
+(* the contract "the equivalence form computes what the original rule computes when the other children are
+   empty", DISCHARGED for the union constructor (C09_equivalence = equiv_union_genuine): if the original
+   union rule's descriptor d (form 0, all its children) satisfies its contract and every child other than
+   the first non-empty one is an empty class (true table [] at every size), then the descriptor of
+   rule.to_equivalence_rule() - same names, children and labels, form 4, ONE declared dependency -
+   satisfies the form-4 contract, has the right shape, and its declared dependency is d's minus the empty
+   children (the `drops` hypothesis of the pipeline theorem). *)
+Theorem C01_equivalence_form_contract :
+  forall T npar vpos kpos Hz c d ci s,
+  c_form d = 0 ->
+  rule_contract T npar vpos kpos Hz c d ->
+  first_nonempty (c_kids d) = Some ci -> (ci < length (c_ok d))%nat ->
+  (forall j, j <> ci -> (j < length (c_ok d))%nat -> empty_class T [] (nth j (c_ok d) O)) ->
+  rule_contract T npar vpos kpos Hz c (equiv_desc d ci s).
+Proof. exact equiv_contract_from_union. Qed.
+
+Theorem C01_equivalence_form_shape : forall d ci s,
+  first_nonempty (c_kids d) = Some ci -> length (c_ok d) = length (c_kids d) -> s <= 0 ->
+  deps_shape (equiv_desc d ci s).
+Proof. exact equiv_deps_shape. Qed.
+
+Theorem C01_equivalence_form_drops : forall T d ci s,
+  dep_labels d = c_ok d -> (ci < length (c_ok d))%nat -> nth ci (dep_shifts d) 0 = s ->
+  (forall j, j <> ci -> (j < length (c_ok d))%nat -> empty_class T (@nil Count.Terms.entry) (nth j (c_ok d) O)) ->
+  drops (empty_class T []) (c_deps (equiv_desc d ci s)) (c_deps d).
+Proof. exact equiv_desc_drops. Qed.
 
 (* ---- the extracted evaluator ---- *)
 (* refinement: every level the bottom-up evaluator computes (any fuel) is eval of srule_of, as raw tables *)
@@ -618,6 +824,10 @@ Print Assumptions C01_constructor_step_sound.
 Print Assumptions C01_srule_ofN_local.
 Print Assumptions C01_srule_ofN_genuine.
 Print Assumptions C01_spec_correct_constructors.
+Print Assumptions C01_forest_pipeline_constructors.
+Print Assumptions C01_equivalence_form_contract.
+Print Assumptions C01_equivalence_form_shape.
+Print Assumptions C01_equivalence_form_drops.
 Print Assumptions C01_rounds_is_eval.
 Print Assumptions C01_rounds_correct.
 Print Assumptions C01_run_correct.
@@ -625,3 +835,59 @@ Print Assumptions C01_run_fuel_suffices.
 Print Assumptions C01_stuck_not_productive_partial.
 Print Assumptions C01_productive_is_complete_partial.
 Print Assumptions C01_run_correct_applied.
+
+(* ================================================================ decidable hypotheses, evaluated per case
+   (Spec/Deciders.v, Spec/CountRunDec.v).  The check extracts run_c01d = run_c01 + the verdicts of the
+   deciders on the descriptor list of the case (C01_run_extends), so every compared case tells whether
+   C01_run_correct is claimed for it:
+     deps_shape             : decided EXACTLY by deps_shapeb (iff: a verdict 0 means deps_shape is false)
+                              (C01_deps_shape_decided)
+     rule_contract          : = decidable part (contract_shapeb: dictionaries, arities, index ranges, minimum sizes,
+                              flags, shape of verified tables) + semantic part (contract_sem: the TRUE tables satisfy
+                              the constructor identities / Vanish / hprod <> 0 / a verified table means the true one)
+                              (C01_rule_contract_from_parts, C01_rule_contract_semantic_part)
+     C01_run_correct_decided: the wire-level theorem with both replaced by "every printed verdict bit is 1";
+                              what stays a hypothesis is contract_sem, T_ok and canonical true tables. *)
+From CSS Require Import Spec.Deciders Spec.CountRunDec.
+
+Theorem C01_deps_shape_decided : forall d, deps_shapeb d = true <-> deps_shape d.
+Proof. exact deps_shapeb_iff. Qed.
+
+Theorem C01_rule_contract_from_parts : forall npar vpos kpos Hz T c d,
+  contract_shapeb npar vpos kpos Hz c d = true -> contract_sem Hz T c d -> rule_contract T npar vpos kpos Hz c d.
+Proof. exact rule_contract_of_parts. Qed.
+
+Theorem C01_rule_contract_semantic_part : forall npar vpos kpos Hz T c d,
+  rule_contract T npar vpos kpos Hz c d -> contract_sem Hz T c d.
+Proof. exact rule_contract_sem. Qed.
+
+Theorem C01_run_extends : forall inp,
+  sx_nth (run_c01d inp) 0 = sx_nth (run_c01 inp) 0 /\ sx_nth (run_c01d inp) 1 = sx_nth (run_c01 inp) 1 /\
+  sx_nth (run_c01d inp) 2 = L (deps_bits inp) /\ sx_nth (run_c01d inp) 3 = L (shape_bits inp).
+Proof. exact run_c01d_extends. Qed.
+
+Theorem C01_run_correct_decided : forall (inp : sx) (T : nat -> Z -> Count.Terms.terms),
+  T_ok T (npar_of inp) -> (forall l m, canon (T l m)) ->
+  (forall b, In b (sx_list (sx_nth (run_c01d inp) 2)) -> b = I 1) ->
+  (forall b, In b (sx_list (sx_nth (run_c01d inp) 3)) -> b = I 1) ->
+  (forall c d, nth_error (map dec_cdesc (sx_list (sx_nth inp 2))) c = Some d ->
+     contract_sem (sx_Z (sx_nth inp 1)) T c d) ->
+  0 <= sx_Z (sx_nth inp 0) ->
+  forall c, sx_nth (sx_nth (run_c01d inp) 1) c = L [I 0; I 0] ->
+  sx_nth (sx_nth (run_c01d inp) 0) c =
+  L (map (fun n => enc_table (T c (Z.of_nat n))) (seq 0 (Z.to_nat (sx_Z (sx_nth inp 0) + 1)))).
+Proof. exact run_c01d_correct. Qed.
+
+(* non-vacuity: on the seven-class example (with its statistic: npar = 1 everywhere) every verdict bit is 1, and
+   the near miss of C01_deps_shape_near_miss gets the verdict 0 *)
+Example C01_verdicts_on_example :
+  let inp := L [I 2; I 3; L (map enc_cdesc ex_ds); of_nats [1; 1; 1; 1; 1; 1; 1]%nat] in
+  sx_nth (run_c01d inp) 2 = L (repeat (I 1) 7) /\ sx_nth (run_c01d inp) 3 = L (repeat (I 1) 7) /\
+  deps_shapeb (mkC 1 0 [0] [kX; kY] 2 [3; 4]%nat [(3%nat, 0); (4%nat, 2)] [] [] 0) = false.
+Proof. vm_compute. auto. Qed.
+
+Print Assumptions C01_deps_shape_decided.
+Print Assumptions C01_rule_contract_from_parts.
+Print Assumptions C01_rule_contract_semantic_part.
+Print Assumptions C01_run_extends.
+Print Assumptions C01_run_correct_decided.
